@@ -7,18 +7,18 @@ import (
 
 // GenCfg parametrises the history generator.
 type GenCfg struct {
-	Names      []string // name pool
-	MaxDepth   int
-	Ops        int
-	Spell      bool    // decorate paths with redundant '/', '.', inner '..', leading '/'
-	Views      bool    // obtain and use child views
-	ViewOnlyOnDirs bool // request views only on directories that exist in the model (disk backend)
-	NoStreams  bool
-	PrecondBias float64 // probability that a mutating operation is drawn so that the stated preconditions hold
-	Weights    [NumOps]int
-	BigData    bool
+	Names           []string // name pool
+	MaxDepth        int
+	Ops             int
+	Spell           bool // decorate paths with redundant '/', '.', inner '..', leading '/'
+	Views           bool // obtain and use child views
+	ViewOnlyOnDirs  bool // request views only on directories that exist in the model (disk backend)
+	NoStreams       bool
+	PrecondBias     float64 // probability that a mutating operation is drawn so that the stated preconditions hold
+	Weights         [NumOps]int
+	BigData         bool
 	NoDestInsideSrc bool // never copy a directory into itself (disk recursion is outside the contract)
-	NoRootTarget bool
+	NoRootTarget    bool
 }
 
 // DefaultWeights favours mutations slightly; queries are issued by the tree walk anyway.
